@@ -39,7 +39,7 @@ def cases(tier, seed):
             out.append({'f': 'makerandCIJ_dir', 'n': n, 'k': k, 'nspy': nspy, 'rs': seed * 1000 + k})
             out.append({'f': 'makeringlatticeCIJ', 'n': n, 'k': k, 'nspy': nspy, 'rs': seed * 1000 + k})
     rs = np.random.RandomState(seed + 2020)
-    for n in (16, 32) if thorough else (16,):
+    for n in (16, 32, 64, 128, 256) if thorough else (16, 64, 130):
         for k in sorted(set(rs.randint(0, n * (n - 1) + 1, size=20 if thorough else 8).tolist() + [n * (n - 1), n * (n - 2), 2 * n, 2 * n + 1])):
             out.append({'f': 'makerandCIJ_dir', 'n': n, 'k': int(k), 'nspy': 3, 'rs': seed})
             out.append({'f': 'makeringlatticeCIJ', 'n': n, 'k': int(k), 'nspy': 3, 'rs': seed})
